@@ -298,3 +298,899 @@ Proof.
     cbn [encode1 app]. unfold decode1_with.
     rewrite to_nat_z2b by lia. rewrite Nat2Z.id. rewrite nop_code_none by exact W1. reflexivity.
 Qed.
+
+(* ---------- one instruction: soundness ---------- *)
+
+Definition rec_sound (rec : bytes -> option (list instr)) : Prop :=
+  forall x p, rec x = Some p -> encode p = x /\ wf_prog p = true.
+
+Lemma read_body_spec : forall rec b p r,
+  rec_sound rec -> read_body rec b = Some (p, r) ->
+  b = len2 (encode p) ++ encode p ++ r /\ wf_prog p = true /\ fits2 (encode p) = true.
+Proof.
+  intros rec b p r S H. unfold read_body in H.
+  destruct (read_var2 b) as [[body r']|] eqn:E; [|discriminate].
+  destruct (rec body) as [p'|] eqn:R; [|discriminate].
+  injection H as <- <-. apply S in R as [<- W]. apply read_var2_spec in E as [-> L].
+  split; [reflexivity|]. split; [exact W|]. apply Z.ltb_lt. exact L.
+Qed.
+
+Lemma decode1_sound : forall rec b i rest,
+  rec_sound rec -> decode1_with rec b = Some (i, rest) ->
+  b = encode1 i ++ rest /\ wf i = true.
+Proof.
+  intros rec b i rest S H. destruct b as [|c r]; [discriminate|].
+  unfold decode1_with in H.
+  destruct (opcode_of_nat (Byte.to_nat c)) as [o|] eqn:Eo.
+  - apply opcode_byte_of in Eo. subst c. unfold decode_op in H.
+    destruct (shape_of o) eqn:Es.
+    + (* ShNone *) injection H as <- <-. cbn [encode1 wf app]. rewrite Es. auto.
+    + (* ShS8 *) destruct r as [|k r']; [discriminate|]. injection H as <- <-.
+      cbn [encode1 wf app]. rewrite Es. auto.
+    + (* ShX8 *) destruct r as [|k r']; [discriminate|]. injection H as <- <-.
+      cbn [encode1 wf app]. rewrite Es. auto.
+    + (* ShPush1 *) destruct (read_var1 r) as [[v r']|] eqn:E; [|discriminate]. injection H as <- <-.
+      apply read_var1_spec in E as [-> L]. cbn [encode1 wf app]. rewrite Es.
+      split; [reflexivity|]. apply Z.ltb_lt in L. rewrite L. reflexivity.
+    + (* ShVar1 *) destruct (read_var1 r) as [[v r']|] eqn:E; [|discriminate]. injection H as <- <-.
+      apply read_var1_spec in E as [-> L]. cbn [encode1 wf app]. rewrite Es.
+      split; [reflexivity|]. apply Z.ltb_lt in L. rewrite L. reflexivity.
+    + (* ShVar1Int *) destruct (read_var1 r) as [[v r']|] eqn:E; [|discriminate]. injection H as <- <-.
+      apply read_var1_spec in E as [-> L]. cbn [encode1 wf app]. rewrite Es.
+      split; [reflexivity|]. apply Z.ltb_lt in L. rewrite L. reflexivity.
+    + (* ShWriteCache *) apply shape_wc in Es. subst o.
+      destruct (read_var1 r) as [[k [|cnt r']]|] eqn:E; try discriminate. injection H as <- <-.
+      apply read_var1_spec in E as [-> L]. cbn [encode1 wf].
+      split; [|apply Z.ltb_lt; exact L].
+      rewrite <- !app_comm_cons, <- app_assoc. reflexivity.
+    + (* ShPush2 *) apply shape_push2 in Es. subst o.
+      destruct (read_var2 r) as [[v r']|] eqn:E; [|discriminate]. injection H as <- <-.
+      apply read_var2_spec in E as [-> L]. cbn [encode1 wf].
+      split; [|apply Z.ltb_lt; exact L].
+      rewrite <- !app_comm_cons, <- app_assoc. reflexivity.
+    + (* ShFix4 *) destruct (take 4 r) as [[v r']|] eqn:E; [|discriminate]. injection H as <- <-.
+      apply take_spec in E as [-> L]. cbn [encode1 wf]. rewrite Es. cbn [fix_len].
+      split; [reflexivity|]. apply Z.eqb_eq. unfold blen. rewrite L. reflexivity.
+    + (* ShSwap *) apply shape_swap in Es. subst o.
+      destruct r as [|a [|b' r']]; try discriminate. injection H as <- <-. auto.
+    + (* ShMultisig *) destruct r as [|f [|m [|n r']]]; try discriminate. injection H as <- <-.
+      cbn [encode1 wf app]. rewrite Es. auto.
+    + (* ShFix32 *) destruct (take 32 r) as [[v r']|] eqn:E; [|discriminate]. injection H as <- <-.
+      apply take_spec in E as [-> L]. cbn [encode1 wf]. rewrite Es. cbn [fix_len].
+      split; [reflexivity|]. apply Z.eqb_eq. unfold blen. rewrite L. reflexivity.
+    + (* ShDef *) apply shape_def in Es. subst o.
+      destruct r as [|h r1]; [discriminate|].
+      destruct (read_body rec r1) as [[p r']|] eqn:E; [|discriminate]. injection H as <- <-.
+      apply (read_body_spec rec _ _ _ S) in E as (-> & W & F).
+      rewrite encode1_unfold_def. cbn [wf]. fold (wf_prog p). fold (encode p). rewrite W, F.
+      split; [|reflexivity]. rewrite <- !app_comm_cons, <- app_assoc. reflexivity.
+    + (* ShIf *) apply shape_if in Es. subst o.
+      destruct (read_body rec r) as [[p r']|] eqn:E; [|discriminate]. injection H as <- <-.
+      apply (read_body_spec rec _ _ _ S) in E as (-> & W & F).
+      rewrite encode1_unfold_if. cbn [wf]. fold (wf_prog p). fold (encode p). rewrite W, F.
+      split; [|reflexivity]. rewrite <- !app_comm_cons, <- app_assoc. reflexivity.
+    + (* ShIfElse *) apply shape_ifelse in Es. subst o.
+      destruct (read_body rec r) as [[p1 r1]|] eqn:E1; [|discriminate].
+      destruct (read_body rec r1) as [[p2 r2]|] eqn:E2; [|discriminate]. injection H as <- <-.
+      apply (read_body_spec rec _ _ _ S) in E1 as (-> & W1 & F1).
+      apply (read_body_spec rec _ _ _ S) in E2 as (-> & W2 & F2).
+      rewrite encode1_unfold_ifelse. cbn [wf]. fold (wf_prog p1). fold (wf_prog p2).
+      fold (encode p1). fold (encode p2). rewrite W1, F1, W2, F2.
+      split; [|reflexivity]. rewrite <- !app_comm_cons, <- !app_assoc. reflexivity.
+    + (* ShTry *) apply shape_try in Es. subst o.
+      destruct (read_body rec r) as [[p1 r1]|] eqn:E1; [|discriminate].
+      destruct (read_body rec r1) as [[p2 r2]|] eqn:E2; [|discriminate]. injection H as <- <-.
+      apply (read_body_spec rec _ _ _ S) in E1 as (-> & W1 & F1).
+      apply (read_body_spec rec _ _ _ S) in E2 as (-> & W2 & F2).
+      rewrite encode1_unfold_try. cbn [wf]. fold (wf_prog p1). fold (wf_prog p2).
+      fold (encode p1). fold (encode p2). rewrite W1, F1, W2, F2.
+      split; [|reflexivity]. rewrite <- !app_comm_cons, <- !app_assoc. reflexivity.
+    + (* ShLoop *) apply shape_loop in Es. subst o.
+      destruct (read_body rec r) as [[p r']|] eqn:E; [|discriminate]. injection H as <- <-.
+      apply (read_body_spec rec _ _ _ S) in E as (-> & W & F).
+      rewrite encode1_unfold_loop. cbn [wf]. fold (wf_prog p). fold (encode p). rewrite W, F.
+      split; [|reflexivity]. rewrite <- !app_comm_cons, <- app_assoc. reflexivity.
+  - (* NOP code *)
+    destruct r as [|k r']; [discriminate|]. injection H as <- <-.
+    pose proof (nop_code_range c Eo) as [R1 R2].
+    cbn [encode1 wf app]. rewrite z2b_to_nat. split; [reflexivity|].
+    apply andb_true_intro. split; [apply Nat.leb_le; exact R1 | apply Nat.ltb_lt; exact R2].
+Qed.
+
+(* ---------- the whole tape ---------- *)
+
+Lemma decode_fuel_step : forall f b, b <> [] ->
+  decode_fuel (S f) b =
+  match decode1_with (decode_fuel f) b with
+  | Some (i, rest) => match decode_fuel f rest with Some p => Some (i :: p) | None => None end
+  | None => None
+  end.
+Proof. intros f [|x t] H; [congruence|reflexivity]. Qed.
+
+Lemma decode_fuel_sound : forall fuel, rec_sound (decode_fuel fuel).
+Proof.
+  induction fuel as [|f IH]; intros b p H.
+  - destruct b; simpl in H; [|discriminate]. injection H as <-. auto.
+  - destruct b as [|x t]; [simpl in H; injection H as <-; auto|].
+    rewrite decode_fuel_step in H by discriminate.
+    destruct (decode1_with (decode_fuel f) (x :: t)) as [[i rest]|] eqn:E1; [|discriminate].
+    destruct (decode_fuel f rest) as [p'|] eqn:E2; [|discriminate].
+    injection H as <-.
+    apply (decode1_sound _ _ _ _ IH) in E1 as [E1 W1]. apply IH in E2 as [E2 W2].
+    rewrite encode_cons, wf_prog_cons, E1, E2, W1, W2. auto.
+Qed.
+
+Definition complete_at (i : instr) : Prop :=
+  wf i = true -> forall f rest, (List.length (encode1 i) <= S f)%nat ->
+  decode1_with (decode_fuel f) (encode1 i ++ rest) = Some (i, rest).
+
+Definition complete_prog (p : list instr) : Prop :=
+  wf_prog p = true -> forall fuel, (List.length (encode p) <= fuel)%nat ->
+  decode_fuel fuel (encode p) = Some p.
+
+Lemma complete_prog_of : forall p, Forall complete_at p -> complete_prog p.
+Proof.
+  induction 1 as [|i p Hi Hp IH]; intros W fuel L.
+  - destruct fuel; reflexivity.
+  - rewrite wf_prog_cons in W. apply andb_prop in W as [Wi Wp].
+    rewrite encode_cons in *. rewrite app_length in L.
+    pose proof (encode1_nonempty i) as N.
+    destruct fuel as [|f]; [lia|].
+    rewrite decode_fuel_step.
+    2:{ intros E. apply (f_equal (@List.length byte)) in E. rewrite app_length in E. simpl in E. lia. }
+    rewrite (Hi Wi f (encode p)) by lia.
+    rewrite (IH Wp f) by lia. reflexivity.
+Qed.
+
+Lemma len2_length : forall e, List.length (len2 e) = 2%nat.
+Proof. intros. apply length_Z_to_be. Qed.
+
+Lemma complete_at_all : forall i, complete_at i.
+Proof.
+  induction i using instr_ind'; intros W fu rest L;
+    try (apply decode1_complete; [exact W | exact I]).
+  - (* IDef *)
+    apply decode1_complete; [exact W|]. cbn [bodies_ok].
+    cbn [wf] in W. apply andb_prop in W as [W _].
+    apply (complete_prog_of _ H W). rewrite encode1_unfold_def in L.
+    cbn [List.length] in L. rewrite app_length, len2_length in L. lia.
+  - (* IIf *)
+    apply decode1_complete; [exact W|]. cbn [bodies_ok].
+    cbn [wf] in W. apply andb_prop in W as [W _].
+    apply (complete_prog_of _ H W). rewrite encode1_unfold_if in L.
+    cbn [List.length] in L. rewrite app_length, len2_length in L. lia.
+  - (* IIfElse *)
+    apply decode1_complete; [exact W|]. cbn [bodies_ok].
+    cbn [wf] in W. apply andb_prop in W as [W _]. apply andb_prop in W as [W W3].
+    apply andb_prop in W as [W1 _].
+    rewrite encode1_unfold_ifelse in L.
+    cbn [List.length] in L. rewrite !app_length, !len2_length in L.
+    split; [apply (complete_prog_of _ H W1) | apply (complete_prog_of _ H0 W3)]; lia.
+  - (* ITry *)
+    apply decode1_complete; [exact W|]. cbn [bodies_ok].
+    cbn [wf] in W. apply andb_prop in W as [W _]. apply andb_prop in W as [W W3].
+    apply andb_prop in W as [W1 _].
+    rewrite encode1_unfold_try in L.
+    cbn [List.length] in L. rewrite !app_length, !len2_length in L.
+    split; [apply (complete_prog_of _ H W1) | apply (complete_prog_of _ H0 W3)]; lia.
+  - (* ILoop *)
+    apply decode1_complete; [exact W|]. cbn [bodies_ok].
+    cbn [wf] in W. apply andb_prop in W as [W _].
+    apply (complete_prog_of _ H W). rewrite encode1_unfold_loop in L.
+    cbn [List.length] in L. rewrite app_length, len2_length in L. lia.
+Qed.
+
+Lemma decode_fuel_complete : forall p fuel,
+  wf_prog p = true -> (List.length (encode p) <= fuel)%nat -> decode_fuel fuel (encode p) = Some p.
+Proof.
+  intros p fuel W L. apply complete_prog_of; try assumption.
+  apply Forall_forall. intros i _. apply complete_at_all.
+Qed.
+
+(* C11.1 *)
+Theorem decode_encode : forall p, wf_prog p = true -> decode (encode p) = Some p.
+Proof. intros p W. unfold decode. apply decode_fuel_complete; [exact W|lia]. Qed.
+
+(* C12.7 *)
+Theorem decode_sound : forall b p, decode b = Some p -> encode p = b /\ wf_prog p = true.
+Proof. intros b p H. exact (decode_fuel_sound _ _ _ H). Qed.
+
+(* C11.3 *)
+Theorem encode_inj : forall p q,
+  wf_prog p = true -> wf_prog q = true -> encode p = encode q -> p = q.
+Proof.
+  intros p q Wp Wq E. apply decode_encode in Wp. apply decode_encode in Wq.
+  rewrite E in Wp. rewrite Wp in Wq. injection Wq as ->. reflexivity.
+Qed.
+
+Theorem decode_total : forall b, exists r, decode b = r.
+Proof. intros b. exists (decode b). reflexivity. Qed.
+
+(* C12.5: the fuel [length b] always suffices; more fuel changes nothing *)
+Theorem decode_fuel_enough : forall b fuel,
+  (List.length b <= fuel)%nat -> decode_fuel fuel b = decode_fuel (List.length b) b.
+Proof.
+  intros b fuel L.
+  destruct (decode_fuel (List.length b) b) as [p|] eqn:E1.
+  - apply decode_fuel_sound in E1 as [<- W]. apply decode_fuel_complete; assumption.
+  - destruct (decode_fuel fuel b) as [p|] eqn:E2; [|reflexivity].
+    apply decode_fuel_sound in E2 as [<- W].
+    rewrite decode_fuel_complete in E1 by (try assumption; lia). discriminate.
+Qed.
+
+Theorem decode_fuel_mono : forall b f1 f2,
+  (List.length b <= f1)%nat -> (List.length b <= f2)%nat -> decode_fuel f1 b = decode_fuel f2 b.
+Proof. intros. rewrite (decode_fuel_enough b f1), (decode_fuel_enough b f2) by assumption. reflexivity. Qed.
+
+(* decode is the tape loop: empty tape, or one instruction followed by the rest *)
+Theorem decode_unfold : forall b,
+  decode b =
+  match b with
+  | [] => Some []
+  | _ :: _ =>
+    match decode1 b with
+    | Some (i, rest) => match decode rest with Some p => Some (i :: p) | None => None end
+    | None => None
+    end
+  end.
+Proof.
+  intros [|x t]; [reflexivity|]. unfold decode, decode1.
+  cbn [List.length]. rewrite decode_fuel_step by discriminate.
+  destruct (decode1_with (decode_fuel (List.length t)) (x :: t)) as [[i rest]|] eqn:E1.
+  - pose proof (decode1_sound _ _ _ _ (decode_fuel_sound _) E1) as [Eb Wi].
+    assert (Lr : (List.length rest <= List.length t)%nat).
+    { apply (f_equal (@List.length byte)) in Eb. rewrite app_length in Eb. cbn [List.length] in Eb.
+      pose proof (encode1_nonempty i). lia. }
+    rewrite (decode_fuel_enough rest (List.length t) Lr).
+    (* the single-instruction decoder with more fuel *)
+    assert (E1' : decode1_with (decode_fuel (S (List.length t))) (x :: t) = Some (i, rest)).
+    { rewrite Eb. apply complete_at_all; [exact Wi|].
+      apply (f_equal (@List.length byte)) in Eb. rewrite app_length in Eb. cbn [List.length] in Eb. lia. }
+    rewrite E1'. reflexivity.
+  - destruct (decode1_with (decode_fuel (S (List.length t))) (x :: t)) as [[i rest]|] eqn:E2; [|reflexivity].
+    pose proof (decode1_sound _ _ _ _ (decode_fuel_sound _) E2) as [Eb Wi].
+    rewrite Eb in E1. rewrite complete_at_all in E1; [discriminate|exact Wi|].
+    apply (f_equal (@List.length byte)) in Eb. rewrite app_length in Eb. cbn [List.length] in Eb. lia.
+Qed.
+
+(* C12.6: the single-instruction decoder reads forward: what it leaves is a proper suffix of its
+   input, the consumed prefix being exactly the instruction's encoding (at least one byte) *)
+Theorem decode1_consumes : forall b i rest,
+  decode1 b = Some (i, rest) ->
+  b = encode1 i ++ rest /\ wf i = true /\ (1 <= List.length (encode1 i))%nat /\
+  (List.length rest < List.length b)%nat.
+Proof.
+  intros b i rest H. unfold decode1 in H.
+  apply (decode1_sound _ _ _ _ (decode_fuel_sound _)) in H as [-> W].
+  pose proof (encode1_nonempty i). rewrite app_length. repeat split; try assumption; lia.
+Qed.
+
+Theorem decode1_encode1 : forall i rest, wf i = true -> decode1 (encode1 i ++ rest) = Some (i, rest).
+Proof.
+  intros i rest W. unfold decode1. pose proof (encode1_nonempty i) as N.
+  rewrite app_length.
+  destruct (List.length (encode1 i) + List.length rest)%nat as [|f] eqn:E; [lia|].
+  apply complete_at_all; [exact W|lia].
+Qed.
+
+(* None exactly on truncated input: a byte string decodes iff it is the encoding of a well-formed program *)
+Theorem decode_some_iff : forall b,
+  (exists p, decode b = Some p) <-> (exists p, wf_prog p = true /\ encode p = b).
+Proof.
+  intros b. split.
+  - intros [p H]. apply decode_sound in H as [E W]. eauto.
+  - intros (p & W & <-). exists p. apply decode_encode. exact W.
+Qed.
+
+(* ---------- the PUSH pseudo-instruction ---------- *)
+
+(* C11.4: which push form is chosen, by length *)
+Theorem push_instr_by_length : forall v,
+  (blen v = 1 -> exists b, v = [b] /\ push_instr v = Some (IOp1 O_PUSH0 b)) /\
+  (2 <= blen v <= 255 -> push_instr v = Some (IVar1 O_PUSH1 v)) /\
+  (256 <= blen v <= 65535 -> push_instr v = Some (IPush2 v)) /\
+  (blen v = 0 \/ 65536 <= blen v -> push_instr v = None).
+Proof.
+  intros v. destruct v as [|a [|b t]].
+  - rewrite blen_nil. split; [|split; [|split]]; intros; try lia. reflexivity.
+  - rewrite blen_cons, blen_nil. split; [|split; [|split]]; intros; try lia. eauto.
+  - remember (a :: b :: t) as v eqn:Ev.
+    assert (L : 2 <= blen v).
+    { subst v. rewrite !blen_cons. pose proof (blen_nonneg t). lia. }
+    assert (U : push_instr v =
+      if (1 <? blen v) && (blen v <? 256) then Some (IVar1 O_PUSH1 v)
+      else if (255 <? blen v) && (blen v <? 65536) then Some (IPush2 v) else None)
+      by (subst v; reflexivity).
+    rewrite U. clear U Ev.
+    split; [|split; [|split]]; intros H; try lia.
+    + replace (1 <? blen v) with true by (symmetry; apply Z.ltb_lt; lia).
+      replace (blen v <? 256) with true by (symmetry; apply Z.ltb_lt; lia). reflexivity.
+    + replace (blen v <? 256) with false by (symmetry; apply Z.ltb_ge; lia).
+      rewrite andb_false_r.
+      replace (255 <? blen v) with true by (symmetry; apply Z.ltb_lt; lia).
+      replace (blen v <? 65536) with true by (symmetry; apply Z.ltb_lt; lia). reflexivity.
+    + replace (blen v <? 256) with false by (symmetry; apply Z.ltb_ge; lia).
+      rewrite andb_false_r.
+      replace (blen v <? 65536) with false by (symmetry; apply Z.ltb_ge; lia).
+      rewrite andb_false_r. reflexivity.
+Qed.
+
+(* C11.4: the chosen form is well-formed, carries exactly the value, and is the shortest form *)
+Theorem push_minimal : forall v i, push_instr v = Some i ->
+  wf i = true /\
+  ((exists b, v = [b] /\ i = IOp1 O_PUSH0 b /\ encode1 i = x02 :: v) \/
+   (2 <= blen v <= 255 /\ i = IVar1 O_PUSH1 v /\ encode1 i = x03 :: z2b (blen v) :: v) \/
+   (256 <= blen v <= 65535 /\ i = IPush2 v /\ encode1 i = x04 :: Z_to_be 2 (blen v) ++ v)).
+Proof.
+  intros v i H.
+  destruct (push_instr_by_length v) as (H1 & H2 & H3 & H4).
+  pose proof (blen_nonneg v) as N.
+  destruct (Z.eq_dec (blen v) 1) as [E|E].
+  - destruct (H1 E) as (b & -> & P). rewrite P in H. injection H as <-.
+    split; [reflexivity|]. left. eauto.
+  - destruct (Z_le_gt_dec 2 (blen v)) as [L|L].
+    + destruct (Z_le_gt_dec (blen v) 255) as [L2|L2].
+      * rewrite H2 in H by lia. injection H as <-. split.
+        -- cbn [wf shape_of is_var1 andb]. apply Z.ltb_lt. lia.
+        -- right. left. repeat split; try lia.
+      * destruct (Z_le_gt_dec (blen v) 65535) as [L3|L3].
+        -- rewrite H3 in H by lia. injection H as <-. split.
+           ++ cbn [wf]. apply Z.ltb_lt. lia.
+           ++ right. right. repeat split; try lia.
+        -- rewrite H4 in H by lia. discriminate.
+    + rewrite H4 in H by lia. discriminate.
+Qed.
+
+Theorem push_instr_none : forall v, push_instr v = None <-> (blen v = 0 \/ 65536 <= blen v).
+Proof.
+  intros v. destruct (push_instr_by_length v) as (H1 & H2 & H3 & H4).
+  split; [|exact H4]. intros H. pose proof (blen_nonneg v).
+  destruct (Z.eq_dec (blen v) 1) as [E|E]; [destruct (H1 E) as (b & _ & P); congruence|].
+  destruct (Z_le_gt_dec 2 (blen v)); [|lia].
+  destruct (Z_le_gt_dec (blen v) 255); [rewrite H2 in H by lia; discriminate|].
+  destruct (Z_le_gt_dec (blen v) 65535); [rewrite H3 in H by lia; discriminate|]. lia.
+Qed.
+
+(* ---------- hex and decimal ---------- *)
+
+Lemma unnib_nib : forall a b c d, unnib (nib a b c d) = Some (a, b, c, d).
+Proof. intros [] [] [] []; reflexivity. Qed.
+
+Lemma unhex_hex : forall v, unhex (hex v) = Some v.
+Proof.
+  induction v as [|x t IH]; [reflexivity|].
+  cbn [hex]. destruct (Byte.to_bits x) as (b0 & b1 & b2 & b3 & b4 & b5 & b6 & b7) eqn:E.
+  cbn [unhex]. rewrite !unnib_nib, IH. rewrite <- E, Byte.of_bits_to_bits. reflexivity.
+Qed.
+
+Lemma dec_nonempty : forall z, dec z <> EmptyString.
+Proof.
+  intros z. unfold dec. destruct z as [|p|p]; cbn [Z.to_int NilEmpty.string_of_int].
+  - discriminate.
+  - pose proof (DecimalPos.Unsigned.to_uint_nonnil p) as N.
+    destruct (Pos.to_uint p); [congruence| | | | | | | | | |]; discriminate.
+  - discriminate.
+Qed.
+
+Lemma undec_dec : forall z, undec (dec z) = Some z.
+Proof.
+  intros z. unfold undec. pose proof (dec_nonempty z) as N.
+  destruct (dec z) eqn:E; [congruence|]. rewrite <- E. unfold dec.
+  rewrite NilEmpty.isi. cbn [option_map]. rewrite DecimalZ.of_to. reflexivity.
+Qed.
+
+Lemma untok_d_d : forall z, untok_d (tok_d z) = Some z.
+Proof. intros. unfold untok_d, tok_d. change (Ascii.eqb "d" "d") with true. apply undec_dec. Qed.
+Lemma untok_x_x : forall v, untok_x (tok_x v) = Some v.
+Proof. intros. unfold untok_x, tok_x. change (Ascii.eqb "x" "x") with true. apply unhex_hex. Qed.
+Lemma untok_d_x : forall v, untok_d (tok_x v) = None.
+Proof. reflexivity. Qed.
+
+Lemma s8_of_s8 : forall b, s8_of (s8 b) = Some b.
+Proof. destruct b; reflexivity. Qed.
+Lemma u8_of_b2z : forall b, u8_of (b2z b) = Some b.
+Proof. destruct b; reflexivity. Qed.
+(* s8 is bytes_to_int on one byte *)
+Lemma s8_spec : forall b, bytes_to_int [b] = Some (s8 b).
+Proof. destruct b; reflexivity. Qed.
+
+Lemma untok_u8_tok : forall b, untok_u8 (tok_d (b2z b)) = Some b.
+Proof. intros. unfold untok_u8. rewrite untok_d_d. apply u8_of_b2z. Qed.
+Lemma untok_x1_tok : forall b, untok_x1 (tok_x [b]) = Some b.
+Proof. intros. unfold untok_x1. rewrite untok_x_x. reflexivity. Qed.
+
+Lemma bytes_eqb_eq : forall a b, bytes_eqb a b = true -> a = b.
+Proof.
+  induction a as [|x a IH]; intros [|y b] H; simpl in H; try discriminate; [reflexivity|].
+  apply andb_prop in H as [H1 H2]. apply Byte.byte_dec_bl in H1. f_equal; auto.
+Qed.
+
+(* ---------- splitting lines into tokens ---------- *)
+
+Fixpoint nospace (s : string) : bool :=
+  match s with
+  | EmptyString => true
+  | String c t => negb (is_space c) && nospace t
+  end.
+Definition wordb (s : string) : bool :=
+  match s with EmptyString => false | _ => nospace s end.
+
+Lemma append_nil_r : forall s, (s ++ "")%string = s.
+Proof. induction s; simpl; congruence. Qed.
+
+Lemma nospace_app : forall a b, nospace (a ++ b)%string = nospace a && nospace b.
+Proof. induction a; intros; simpl; [reflexivity|]. rewrite IHa, andb_assoc. reflexivity. Qed.
+
+Lemma split_aux_word : forall w s, nospace w = true ->
+  split_aux (w ++ s)%string = (let '(w', ts) := split_aux s in ((w ++ w')%string, ts)).
+Proof.
+  induction w as [|c w IH]; intros s H.
+  - simpl. destruct (split_aux s). reflexivity.
+  - simpl in H. apply andb_prop in H as [H1 H2]. apply negb_true_iff in H1.
+    cbn [append split_aux]. rewrite IH by exact H2. destruct (split_aux s). rewrite H1. reflexivity.
+Qed.
+
+Lemma split_ws_space : forall s, split_ws (String " " s) = split_ws s.
+Proof.
+  intros s. unfold split_ws. cbn [split_aux]. destruct (split_aux s) as [w ts].
+  change (is_space " ") with true. cbn iota. reflexivity.
+Qed.
+
+Lemma split_ws_pad : forall ind s, split_ws (pad ind s) = split_ws s.
+Proof. induction ind; intros; cbn [pad]; [reflexivity|]. rewrite !split_ws_space. apply IHind. Qed.
+
+Definition words (ws : list string) : Prop := Forall (fun w => wordb w = true) ws.
+
+Lemma wordb_inv : forall w, wordb w = true -> w <> EmptyString /\ nospace w = true.
+Proof. intros [|c t] H; [discriminate|]. split; [discriminate|exact H]. Qed.
+
+Lemma cons_word_word : forall w ts, wordb w = true -> cons_word w ts = w :: ts.
+Proof. intros [|c t] ts H; [discriminate|reflexivity]. Qed.
+
+Lemma split_aux_unwords : forall w ws, words (w :: ws) ->
+  split_aux (unwords (w :: ws)) = (w, ws).
+Proof.
+  intros w ws. revert w. induction ws as [|w2 ws IH]; intros w H.
+  - inversion H as [|? ? Hw _]; subst. apply wordb_inv in Hw as [_ Hn].
+    cbn [unwords]. rewrite <- (append_nil_r w) at 1. rewrite split_aux_word by exact Hn.
+    cbn [split_aux]. rewrite append_nil_r. reflexivity.
+  - inversion H as [|? ? Hw Hrest]; subst. apply wordb_inv in Hw as [_ Hn].
+    change (unwords (w :: w2 :: ws)) with (w ++ String " " (unwords (w2 :: ws)))%string.
+    rewrite split_aux_word by exact Hn. cbn [split_aux]. rewrite (IH w2 Hrest).
+    change (is_space " ") with true. cbn iota.
+    inversion Hrest as [|? ? Hw2 _]; subst. rewrite cons_word_word by exact Hw2.
+    rewrite append_nil_r. reflexivity.
+Qed.
+
+Lemma split_ws_line : forall ind ws, words ws -> split_ws (line ind ws) = ws.
+Proof.
+  intros ind ws H. unfold line. rewrite split_ws_pad. destruct ws as [|w ws]; [reflexivity|].
+  unfold split_ws. rewrite split_aux_unwords by exact H.
+  inversion H; subst. apply cons_word_word. assumption.
+Qed.
+
+Lemma tokens_of_app : forall a b, tokens_of (a ++ b) = tokens_of a ++ tokens_of b.
+Proof. intros. unfold tokens_of. apply flat_map_app. Qed.
+Lemma tokens_of_cons : forall l ls, tokens_of (l :: ls) = split_ws l ++ tokens_of ls.
+Proof. reflexivity. Qed.
+
+(* the words the printer emits *)
+Lemma nib_nospace : forall a b c d, is_space (nib a b c d) = false.
+Proof. intros [] [] [] []; reflexivity. Qed.
+
+Lemma nospace_hex : forall v, nospace (hex v) = true.
+Proof.
+  induction v as [|x t IH]; [reflexivity|].
+  cbn [hex]. destruct (Byte.to_bits x) as (b0 & b1 & b2 & b3 & b4 & b5 & b6 & b7).
+  cbn [nospace]. rewrite !nib_nospace, IH. reflexivity.
+Qed.
+
+Lemma nospace_uint : forall d, nospace (NilEmpty.string_of_uint d) = true.
+Proof. induction d; cbn [NilEmpty.string_of_uint nospace]; try rewrite IHd; reflexivity. Qed.
+
+Lemma nospace_dec : forall z, nospace (dec z) = true.
+Proof.
+  intros z. unfold dec. destruct (Z.to_int z); cbn [NilEmpty.string_of_int nospace];
+    rewrite nospace_uint; reflexivity.
+Qed.
+
+Lemma word_dec : forall z, wordb (dec z) = true.
+Proof.
+  intros z. pose proof (dec_nonempty z). pose proof (nospace_dec z).
+  destruct (dec z); [congruence|assumption].
+Qed.
+Lemma word_tok_d : forall z, wordb (tok_d z) = true.
+Proof. intros. unfold tok_d, wordb. cbn [nospace]. rewrite nospace_dec. reflexivity. Qed.
+Lemma word_tok_x : forall v, wordb (tok_x v) = true.
+Proof. intros. unfold tok_x, wordb. cbn [nospace]. rewrite nospace_hex. reflexivity. Qed.
+Lemma word_name : forall o, wordb (opcode_name o) = true.
+Proof. destruct o; reflexivity. Qed.
+Lemma word_nop : forall c, wordb (nop_name c) = true.
+Proof. intros. unfold nop_name. cbn [append wordb nospace]. rewrite nospace_dec. reflexivity. Qed.
+
+Section ListingProofs.
+  Variable fl2 : Z -> Z.
+
+  Lemma word_int_tok : forall v, wordb (int_tok fl2 v) = true.
+  Proof.
+    intros v. unfold int_tok. destruct v; [apply word_tok_x|].
+    destruct (bytes_to_int _); [|apply word_tok_x].
+    destruct (int_to_bytes _ _); [|apply word_tok_x].
+    destruct (bytes_eqb _ _); [apply word_tok_d|apply word_tok_x].
+  Qed.
+
+  Lemma words_simple : forall i, words (simple_toks fl2 i).
+  Proof.
+    intros i. unfold words.
+    destruct i; cbn [simple_toks]; try (destruct (shape_of o));
+      repeat (first [apply Forall_nil | apply Forall_cons]);
+      first [apply word_name | apply word_tok_d | apply word_tok_x | apply word_int_tok | apply word_nop].
+  Qed.
+
+  (* the token stream of a program's listing *)
+  Fixpoint ptoks1 (i : instr) : list string :=
+    match i with
+    | IDef h body =>
+        opcode_name O_DEF :: dec (b2z h) :: "{"%string :: flat_map ptoks1 body ++ ["}"%string]
+    | IIf body => opcode_name O_IF :: "{"%string :: flat_map ptoks1 body ++ ["}"%string]
+    | IIfElse b1 b2 =>
+        opcode_name O_IF :: "{"%string :: flat_map ptoks1 b1
+        ++ "}"%string :: "ELSE"%string :: "{"%string :: flat_map ptoks1 b2 ++ ["}"%string]
+    | ITry b1 b2 =>
+        "OP_TRY"%string :: "{"%string :: flat_map ptoks1 b1
+        ++ match flat_map ptoks1 b2 with
+           | [] => []
+           | l2 => "}"%string :: "EXCEPT"%string :: "{"%string :: l2
+           end ++ ["}"%string]
+    | ILoop body => opcode_name O_LOOP :: "{"%string :: flat_map ptoks1 body ++ ["}"%string]
+    | _ => simple_toks fl2 i
+    end.
+  Definition ptoks (p : list instr) : list string := flat_map ptoks1 p.
+
+  Lemma print1_nonempty : forall ind i, print1 fl2 ind i <> [].
+  Proof. intros ind i. destruct i; cbn [print1]; discriminate. Qed.
+
+  Lemma ptoks1_nonempty : forall i, ptoks1 i <> [].
+  Proof.
+    intros i. destruct i; cbn [ptoks1 simple_toks]; try discriminate;
+      destruct (shape_of o); discriminate.
+  Qed.
+
+  Local Ltac wds := unfold words; repeat (apply Forall_cons; [reflexivity|]); apply Forall_nil.
+
+  Lemma tokens_print1 : forall i ind, tokens_of (print1 fl2 ind i) = ptoks1 i.
+  Proof.
+    assert (L : forall p, Forall (fun i => forall ind, tokens_of (print1 fl2 ind i) = ptoks1 i) p ->
+                forall ind, tokens_of (flat_map (print1 fl2 ind) p) = flat_map ptoks1 p).
+    { induction 1 as [|i p Hi Hp IH]; intros ind; [reflexivity|].
+      cbn [flat_map]. rewrite tokens_of_app, Hi, IH. reflexivity. }
+    assert (W : forall ind ws, words ws -> tokens_of [line ind ws] = ws).
+    { intros. rewrite tokens_of_cons, split_ws_line by assumption. apply app_nil_r. }
+    assert (W1 : forall ind ws rest, words ws -> tokens_of (line ind ws :: rest) = ws ++ tokens_of rest).
+    { intros. rewrite tokens_of_cons, split_ws_line by assumption. reflexivity. }
+    assert (Wb : words ["}"%string]) by wds.
+    induction i using instr_ind'; intros ind;
+      try (cbn [print1 ptoks1]; apply W; apply words_simple).
+    - (* IDef *)
+      cbn [print1 ptoks1]. rewrite tokens_of_app, W1, (W _ _ Wb), (L _ H).
+      + reflexivity.
+      + unfold words. repeat (apply Forall_cons; [first [reflexivity | apply word_dec]|]). apply Forall_nil.
+    - (* IIf *)
+      cbn [print1 ptoks1]. rewrite tokens_of_app, W1, (W _ _ Wb), (L _ H) by wds.
+      reflexivity.
+    - (* IIfElse *)
+      cbn [print1 ptoks1]. rewrite tokens_of_app, W1, (L _ H) by wds.
+      rewrite tokens_of_app, W1, (L _ H0), (W _ _ Wb) by wds.
+      reflexivity.
+    - (* ITry *)
+      cbn [print1 ptoks1]. rewrite tokens_of_app, W1, (L _ H) by wds.
+      rewrite tokens_of_app, (W _ _ Wb).
+      cbn [app]. do 3 f_equal.
+      destruct b2 as [|i2 b2'].
+      + reflexivity.
+      + pose proof (L _ H0 (S ind)) as E2.
+        destruct (flat_map (print1 fl2 (S ind)) (i2 :: b2')) as [|l ls] eqn:E.
+        { cbn [flat_map] in E. apply app_eq_nil in E as [E _]. exfalso. exact (print1_nonempty _ _ E). }
+        destruct (flat_map ptoks1 (i2 :: b2')) as [|t ts] eqn:Et.
+        { cbn [flat_map] in Et. apply app_eq_nil in Et as [Et _]. exfalso. exact (ptoks1_nonempty _ Et). }
+        rewrite W1 by wds. rewrite E2. reflexivity.
+    - (* ILoop *)
+      cbn [print1 ptoks1]. rewrite tokens_of_app, W1, (W _ _ Wb), (L _ H) by wds.
+      reflexivity.
+  Qed.
+
+  Lemma tokens_print : forall p ind, tokens_of (print fl2 ind p) = ptoks p.
+  Proof.
+    induction p as [|i p IH]; intros ind; [reflexivity|].
+    unfold print, ptoks in *. cbn [flat_map]. rewrite tokens_of_app, tokens_print1, IH. reflexivity.
+  Qed.
+End ListingProofs.
+
+(* ---------- reading the listing back ---------- *)
+
+Definition simple_shape (s : shape) : bool :=
+  match s with ShDef | ShIf | ShIfElse | ShTry | ShLoop => false | _ => true end.
+
+Lemma classify_name : forall o, simple_shape (shape_of o) = true -> classify (opcode_name o) = TOp o.
+Proof. destruct o; intros H; simpl in H; try discriminate H; vm_compute; reflexivity. Qed.
+Lemma classify_def : classify (opcode_name O_DEF) = TDef.
+Proof. reflexivity. Qed.
+Lemma classify_if : classify (opcode_name O_IF) = TIf.
+Proof. reflexivity. Qed.
+Lemma classify_loop : classify (opcode_name O_LOOP) = TLoop.
+Proof. reflexivity. Qed.
+Lemma classify_try : classify "OP_TRY" = TTry.
+Proof. reflexivity. Qed.
+Lemma classify_close : classify "}" = TClose.
+Proof. reflexivity. Qed.
+Lemma classify_else : classify "ELSE" = TBad.
+Proof. reflexivity. Qed.
+Lemma classify_except : classify "EXCEPT" = TBad.
+Proof. reflexivity. Qed.
+
+Definition nop_ok (code : nat) : bool :=
+  match classify (nop_name code) with TNop c => Nat.eqb c code | _ => false end.
+Lemma nop_ok_all : forallb nop_ok (seq 92 164) = true.
+Proof. vm_compute. reflexivity. Qed.
+Lemma classify_nop : forall code, (n_opcodes <= code < 256)%nat -> classify (nop_name code) = TNop code.
+Proof.
+  intros code H. rewrite n_opcodes_val in H.
+  assert (I : In code (seq 92 164)) by (apply in_seq; lia).
+  pose proof (proj1 (forallb_forall _ _) nop_ok_all code I) as K. unfold nop_ok in K.
+  destruct (classify (nop_name code)); try discriminate K. apply Nat.eqb_eq in K. subst. reflexivity.
+Qed.
+
+Lemma close_eqb : forall t, classify t <> TClose -> (t =? "}")%string = false.
+Proof.
+  intros t H. destruct (t =? "}")%string eqn:E; [|reflexivity].
+  exfalso. apply H. unfold classify. rewrite E. reflexivity.
+Qed.
+
+Definition good_next (r : list string) : Prop :=
+  match r with [] => True | t :: _ => classify t <> TBad end.
+Definition closing (r : list string) : Prop := r = [] \/ exists r', r = "}"%string :: r'.
+
+Lemma parse_tail_none : forall rec kw r,
+  classify kw = TBad -> good_next r -> parse_tail rec kw r = Some (None, r).
+Proof.
+  intros rec kw [|t r] K G; [reflexivity|]. unfold parse_tail.
+  destruct (t =? kw)%string eqn:E; [|reflexivity].
+  apply String.eqb_eq in E. subst t. simpl in G. congruence.
+Qed.
+
+Lemma parse_block_ok : forall rec p ts r,
+  rec (ts ++ "}"%string :: r) = Some (p, "}"%string :: r) ->
+  parse_block rec ("{"%string :: ts ++ "}"%string :: r) = Some (p, r).
+Proof. intros rec p ts r H. unfold parse_block. cbn [String.eqb Ascii.eqb Bool.eqb]. rewrite H. reflexivity. Qed.
+
+Section ParseProofs.
+  Variable fl2 : Z -> Z.
+
+  Lemma parse_seq_step : forall f t r, (t =? "}")%string = false ->
+    parse_seq fl2 (S f) (t :: r) =
+    match parse_one fl2 (parse_seq fl2 f) t r with
+    | Some (i, r') =>
+        match parse_seq fl2 f r' with Some (p, r'') => Some (i :: p, r'') | None => None end
+    | None => None
+    end.
+  Proof. intros f t r H. cbn [parse_seq]. rewrite H. reflexivity. Qed.
+
+  Lemma parse_seq_closing : forall fuel r, closing r -> parse_seq fl2 fuel r = Some ([], r).
+  Proof. intros fuel r [->|[r' ->]]; destruct fuel; reflexivity. Qed.
+
+  Definition parse_first (f : nat) (ts : list string) : option (instr * list string) :=
+    match ts with [] => None | t :: r => parse_one fl2 (parse_seq fl2 f) t r end.
+
+  Lemma ptoks1_head : forall i, wf i = true ->
+    exists t r0, ptoks1 fl2 i = t :: r0 /\ classify t <> TClose /\ classify t <> TBad.
+  Proof.
+    intros i W.
+    destruct i; cbn [wf] in W; cbn [ptoks1 simple_toks];
+      try (destruct (shape_of o) eqn:Es; try discriminate W;
+           do 2 eexists; (split; [reflexivity|]);
+           rewrite classify_name by (rewrite Es; reflexivity); split; discriminate).
+    - do 2 eexists. split; [reflexivity|]. rewrite classify_name by reflexivity. split; discriminate.
+    - do 2 eexists. split; [reflexivity|]. rewrite classify_name by reflexivity. split; discriminate.
+    - do 2 eexists. split; [reflexivity|]. rewrite classify_name by reflexivity. split; discriminate.
+    - do 2 eexists. split; [reflexivity|]. rewrite classify_def. split; discriminate.
+    - do 2 eexists. split; [reflexivity|]. rewrite classify_if. split; discriminate.
+    - do 2 eexists. split; [reflexivity|]. rewrite classify_if. split; discriminate.
+    - do 2 eexists. split; [reflexivity|]. rewrite classify_try. split; discriminate.
+    - do 2 eexists. split; [reflexivity|]. rewrite classify_loop. split; discriminate.
+    - apply andb_prop in W as [W1 W2]. apply Nat.leb_le in W1. apply Nat.ltb_lt in W2.
+      do 2 eexists. split; [reflexivity|]. rewrite classify_nop by lia. split; discriminate.
+  Qed.
+
+  Definition rt_at (i : instr) : Prop :=
+    wf i = true -> forall f r, (List.length (ptoks1 fl2 i) <= S f)%nat -> good_next r ->
+    parse_first f (ptoks1 fl2 i ++ r) = Some (i, r).
+
+  Definition rt_prog (p : list instr) : Prop :=
+    wf_prog p = true -> forall fuel r, (List.length (ptoks fl2 p) <= fuel)%nat -> closing r ->
+    parse_seq fl2 fuel (ptoks fl2 p ++ r) = Some (p, r).
+
+  Lemma good_next_ptoks : forall p r, wf_prog p = true -> closing r -> good_next (ptoks fl2 p ++ r).
+  Proof.
+    intros [|i p] r W C.
+    - cbn [ptoks flat_map app]. destruct C as [->|[r' ->]]; cbn [good_next]; [exact I|].
+      rewrite classify_close. discriminate.
+    - rewrite wf_prog_cons in W. apply andb_prop in W as [Wi _].
+      destruct (ptoks1_head i Wi) as (t & r0 & E & _ & B).
+      unfold ptoks. cbn [flat_map]. rewrite E. cbn [app good_next]. exact B.
+  Qed.
+
+  Lemma rt_prog_of : forall p, Forall rt_at p -> rt_prog p.
+  Proof.
+    induction 1 as [|i p Hi Hp IH]; intros W fuel r L C.
+    - cbn [ptoks flat_map app]. apply parse_seq_closing. exact C.
+    - rewrite wf_prog_cons in W. apply andb_prop in W as [Wi Wp].
+      change (ptoks fl2 (i :: p)) with (ptoks1 fl2 i ++ ptoks fl2 p) in *.
+      rewrite app_length in L. rewrite <- app_assoc.
+      destruct (ptoks1_head i Wi) as (t & r0 & E & Cl & _).
+      assert (N : (1 <= List.length (ptoks1 fl2 i))%nat) by (rewrite E; cbn [List.length]; lia).
+      destruct fuel as [|f]; [lia|].
+      pose proof (Hi Wi f (ptoks fl2 p ++ r) ltac:(lia) (good_next_ptoks p r Wp C)) as P1.
+      rewrite E in *. cbn [app parse_first] in *.
+      rewrite parse_seq_step by (apply close_eqb; exact Cl).
+      rewrite P1. rewrite (IH Wp f r) by (try assumption; lia). reflexivity.
+  Qed.
+
+  Lemma rt_at_all : forall i, rt_at i.
+  Proof.
+    induction i using instr_ind'; intros W fu r L G; cbn [wf] in W.
+    - (* IOp0 *)
+      cbn [ptoks1 simple_toks app parse_first]. unfold parse_one.
+      destruct (shape_of o) eqn:Es; try discriminate W.
+      rewrite classify_name by (rewrite Es; reflexivity). unfold parse_simple. rewrite Es. reflexivity.
+    - (* IOp1 *)
+      cbn [ptoks1 simple_toks app parse_first]. unfold parse_one.
+      destruct (shape_of o) eqn:Es; try discriminate W;
+        rewrite classify_name by (rewrite Es; reflexivity); unfold parse_simple; rewrite Es.
+      + rewrite untok_d_d, s8_of_s8. reflexivity.
+      + rewrite untok_x1_tok. reflexivity.
+    - (* IVar1 *)
+      apply andb_prop in W as [W1 W2].
+      cbn [ptoks1 simple_toks]. unfold parse_first, parse_one.
+      destruct (shape_of o) eqn:Es; try discriminate W1; cbn [app];
+        rewrite classify_name by (rewrite Es; reflexivity); unfold parse_simple; rewrite Es.
+      + rewrite untok_d_d, untok_x_x, Z.eqb_refl, W2. reflexivity.
+      + rewrite untok_x_x, W2. reflexivity.
+      + unfold int_tok. destruct v as [|x t].
+        * rewrite untok_d_x, untok_x_x, W2. reflexivity.
+        * destruct (bytes_to_int (x :: t)) as [z|]; [|rewrite untok_d_x, untok_x_x, W2; reflexivity].
+          destruct (int_to_bytes fl2 z) as [v'|] eqn:Ei; [|rewrite untok_d_x, untok_x_x, W2; reflexivity].
+          destruct (bytes_eqb v' (x :: t)) eqn:Eb; [|rewrite untok_d_x, untok_x_x, W2; reflexivity].
+          apply bytes_eqb_eq in Eb. subst v'. rewrite untok_d_d, Ei, W2. reflexivity.
+    - (* IWriteCache *)
+      cbn [ptoks1 simple_toks app parse_first]. unfold parse_one.
+      rewrite classify_name by reflexivity. unfold parse_simple. cbn [shape_of].
+      rewrite untok_x_x, untok_u8_tok, W. reflexivity.
+    - (* IPush2 *)
+      cbn [ptoks1 simple_toks app parse_first]. unfold parse_one.
+      rewrite classify_name by reflexivity. unfold parse_simple. cbn [shape_of].
+      rewrite untok_d_d, untok_x_x, Z.eqb_refl, W. reflexivity.
+    - (* IFix *)
+      cbn [ptoks1 simple_toks app parse_first]. unfold parse_one.
+      destruct (shape_of o) eqn:Es; cbn [fix_len] in W; try discriminate W;
+        rewrite classify_name by (rewrite Es; reflexivity); unfold parse_simple; rewrite Es;
+        rewrite untok_x_x, W; reflexivity.
+    - (* ISwap *)
+      cbn [ptoks1 simple_toks app parse_first]. unfold parse_one.
+      rewrite classify_name by reflexivity. unfold parse_simple. cbn [shape_of].
+      rewrite !untok_u8_tok. reflexivity.
+    - (* IMultisig *)
+      cbn [ptoks1 simple_toks app parse_first]. unfold parse_one.
+      destruct (shape_of o) eqn:Es; try discriminate W.
+      rewrite classify_name by (rewrite Es; reflexivity). unfold parse_simple. rewrite Es.
+      rewrite untok_x1_tok, !untok_u8_tok. reflexivity.
+    - (* IDef *)
+      apply andb_prop in W as [W _]. pose proof (rt_prog_of _ H W) as Q.
+      cbn [ptoks1] in *. change (flat_map (ptoks1 fl2) body) with (ptoks fl2 body) in *.
+      cbn [List.length] in L. rewrite app_length in L. cbn [List.length] in L.
+      cbn [app parse_first]. rewrite <- app_assoc. cbn [app]. unfold parse_one.
+      rewrite classify_def, undec_dec, u8_of_b2z.
+      rewrite (parse_block_ok _ body) by (apply Q; [lia|right; eauto]). reflexivity.
+    - (* IIf *)
+      apply andb_prop in W as [W _]. pose proof (rt_prog_of _ H W) as Q.
+      cbn [ptoks1] in *. change (flat_map (ptoks1 fl2) body) with (ptoks fl2 body) in *.
+      cbn [List.length] in L. rewrite app_length in L. cbn [List.length] in L.
+      cbn [app parse_first]. rewrite <- app_assoc. cbn [app]. unfold parse_one.
+      rewrite classify_if.
+      rewrite (parse_block_ok _ body) by (apply Q; [lia|right; eauto]).
+      rewrite parse_tail_none by (try exact G; reflexivity). reflexivity.
+    - (* IIfElse *)
+      apply andb_prop in W as [W _]. apply andb_prop in W as [W W3]. apply andb_prop in W as [W1 _].
+      pose proof (rt_prog_of _ H W1) as Q1. pose proof (rt_prog_of _ H0 W3) as Q2.
+      cbn [ptoks1] in *. change (flat_map (ptoks1 fl2) b1) with (ptoks fl2 b1) in *.
+      change (flat_map (ptoks1 fl2) b2) with (ptoks fl2 b2) in *.
+      cbn [List.length] in L. rewrite app_length in L. cbn [List.length] in L.
+      rewrite app_length in L. cbn [List.length] in L.
+      cbn [app parse_first]. rewrite <- app_assoc. cbn [app]. rewrite <- app_assoc. cbn [app].
+      unfold parse_one. rewrite classify_if.
+      rewrite (parse_block_ok _ b1) by (apply Q1; [lia|right; eauto]).
+      unfold parse_tail. cbn [String.eqb Ascii.eqb Bool.eqb].
+      rewrite (parse_block_ok _ b2) by (apply Q2; [lia|right; eauto]). reflexivity.
+    - (* ITry *)
+      apply andb_prop in W as [W _]. apply andb_prop in W as [W W3]. apply andb_prop in W as [W1 _].
+      pose proof (rt_prog_of _ H W1) as Q1. pose proof (rt_prog_of _ H0 W3) as Q2.
+      cbn [ptoks1] in *. change (flat_map (ptoks1 fl2) b1) with (ptoks fl2 b1) in *.
+      change (flat_map (ptoks1 fl2) b2) with (ptoks fl2 b2) in *.
+      unfold parse_first. cbn [app]. unfold parse_one. rewrite classify_try.
+      destruct (ptoks fl2 b2) as [|t2 ts2] eqn:E2.
+      + (* empty except body: not printed *)
+        assert (b2 = []) as ->.
+        { destruct b2 as [|i2 b2']; [reflexivity|]. exfalso. unfold ptoks in E2. cbn [flat_map] in E2.
+          apply app_eq_nil in E2 as [E2 _]. exact (ptoks1_nonempty _ _ E2). }
+        cbn [List.length] in L. rewrite !app_length in L. cbn [List.length] in L.
+        cbn [app]. rewrite <- app_assoc. cbn [app].
+        rewrite (parse_block_ok _ b1) by (apply Q1; [lia|right; eauto]).
+        rewrite parse_tail_none by (try exact G; reflexivity). reflexivity.
+      + cbn iota in L |- *. rewrite <- E2 in L, Q2 |- *. clear E2.
+        cbn [List.length] in L. rewrite !app_length in L. cbn [List.length] in L.
+        rewrite <- !app_assoc. cbn [app].
+        rewrite (parse_block_ok _ b1) by (apply Q1; [lia|right; eauto]).
+        unfold parse_tail. cbn [String.eqb Ascii.eqb Bool.eqb].
+        rewrite (parse_block_ok _ b2) by (apply Q2; [lia|right; eauto]). reflexivity.
+    - (* ILoop *)
+      apply andb_prop in W as [W _]. pose proof (rt_prog_of _ H W) as Q.
+      cbn [ptoks1] in *. change (flat_map (ptoks1 fl2) body) with (ptoks fl2 body) in *.
+      cbn [List.length] in L. rewrite app_length in L. cbn [List.length] in L.
+      cbn [app parse_first]. rewrite <- app_assoc. cbn [app]. unfold parse_one.
+      rewrite classify_loop.
+      rewrite (parse_block_ok _ body) by (apply Q; [lia|right; eauto]). reflexivity.
+    - (* INop *)
+      apply andb_prop in W as [W1 W2]. apply Nat.leb_le in W1. apply Nat.ltb_lt in W2.
+      cbn [ptoks1 simple_toks app parse_first]. unfold parse_one.
+      rewrite classify_nop by lia. rewrite untok_d_d, s8_of_s8. reflexivity.
+  Qed.
+
+  Lemma parse_seq_ptoks : forall p fuel r,
+    wf_prog p = true -> (List.length (ptoks fl2 p) <= fuel)%nat -> closing r ->
+    parse_seq fl2 fuel (ptoks fl2 p ++ r) = Some (p, r).
+  Proof.
+    intros p fuel r W L C. apply rt_prog_of; try assumption.
+    apply Forall_forall. intros i _. apply rt_at_all.
+  Qed.
+
+  (* C12.9 *)
+  Theorem listing_roundtrip : forall p ind,
+    wf_prog p = true -> parse_listing fl2 (tokens_of (print fl2 ind p)) = Some p.
+  Proof.
+    intros p ind W. rewrite tokens_print. unfold parse_listing.
+    rewrite <- (app_nil_r (ptoks fl2 p)) at 2.
+    rewrite parse_seq_ptoks by (try assumption; try lia; left; reflexivity). reflexivity.
+  Qed.
+
+  Theorem listing_roundtrip_bytes : forall p,
+    wf_prog p = true ->
+    option_map encode (parse_listing fl2 (tokens_of (print fl2 0 p))) = Some (encode p).
+  Proof. intros p W. rewrite listing_roundtrip by exact W. reflexivity. Qed.
+
+  (* C12.8 *)
+  Theorem decompile_encode : forall p,
+    wf_prog p = true -> decompile fl2 (encode p) = Some (print fl2 0 p).
+  Proof. intros p W. unfold decompile. rewrite decode_encode by exact W. reflexivity. Qed.
+
+  (* decompile raises exactly when decode does, and what it lists is what the bytes hold *)
+  Theorem decompile_sound : forall b ls,
+    decompile fl2 b = Some ls ->
+    exists p, ls = print fl2 0 p /\ encode p = b /\ wf_prog p = true /\
+              parse_listing fl2 (tokens_of ls) = Some p.
+  Proof.
+    intros b ls H. unfold decompile in H. destruct (decode b) as [p|] eqn:E; [|discriminate].
+    injection H as <-. apply decode_sound in E as [E W]. exists p.
+    repeat split; try assumption. apply listing_roundtrip. exact W.
+  Qed.
+
+  Theorem decompile_none_iff : forall b, decompile fl2 b = None <-> decode b = None.
+  Proof. intros b. unfold decompile. destruct (decode b); simpl; split; congruence. Qed.
+End ParseProofs.
+
+(* under the assumption made on math.log2 (CodecProofs.fl2_ok) the d-or-x test of the decompiler
+   never raises: bytes_to_int and int_to_bytes both succeed on a non-empty operand *)
+Lemma int_tok_total : forall fl2, fl2_ok fl2 -> forall v, v <> [] ->
+  exists z v', bytes_to_int v = Some z /\ int_to_bytes fl2 z = Some v'.
+Proof.
+  intros fl2 F v N. destruct (bytes_to_int_total v N) as (z & E & _).
+  destruct (int_roundtrip fl2 F z) as (v' & E' & _). eauto.
+Qed.
